@@ -92,6 +92,9 @@ class Plain:
 OBJ = [HasAttr(), HasItem(), {'k': 'dictitem'}, {'z': 1}, Plain(), ItemIndexError(), None, 3]
 KIND_N['obj'] = len(OBJ)
 KIND_N['maybe3'] = 3
+KIND_N['out3'] = 3
+OUT3 = [0, 7, 10]      # succeeds / ValueError / CustomExc
+HANDLER_CALLS = []
 BOOL_KINDS = ('bool', 'lbool', 'maybe', 'llist')
 
 
@@ -143,6 +146,22 @@ def _mutate(name):
                                     BACKUP=cc.identifier("backup_%s" % name, id(names)), KEY=ast.Constant(str(name)))
         cc.Compiler._enter_assignment = _enter_assignment
         cc.Compiler._leave_assignment = _leave_assignment
+    elif name == 'onerror_no_truncate':
+        import inspect
+        import textwrap
+        src_fn = cc.Compiler.visit_OnError
+        code = textwrap.dedent(inspect.getsource(src_fn)).replace('"del __stream[fallback:]"', '"pass"')
+        ns = dict(src_fn.__globals__)
+        exec(code, ns)
+        cc.Compiler.visit_OnError = ns['visit_OnError']
+    elif name == 'onerror_catches_base':
+        import inspect
+        import textwrap
+        src_fn = cc.Compiler.visit_OnError
+        code = textwrap.dedent(inspect.getsource(src_fn)).replace('Builtin("Exception")', 'Builtin("LookupError")')
+        ns = dict(src_fn.__globals__)
+        exec(code, ns)
+        cc.Compiler.visit_OnError = ns['visit_OnError']
     elif name == 'pipe_catches_zerodiv':
         from chameleon import tales
         tales.TalesExpr.exceptions = tales.TalesExpr.exceptions + (ArithmeticError,)
@@ -201,7 +220,10 @@ def prepare(cfg):
     prog = cfg['prog']
     text = tprog.serialise(prog)
     STATE['text'] = text
-    STATE['template'] = PageTemplate(text, **cfg.get('options', {}))
+    opts = dict(cfg.get('options', {}))
+    if cfg.get('handler'):
+        opts['on_error_handler'] = lambda exc: HANDLER_CALLS.append(_base_name(exc))
+    STATE['template'] = PageTemplate(text, **opts)
     STATE['case_and_condition'] = any('case' in e and 'condition' in e for e in tprog.walk(prog))
     srcs = set()
     collect_sources(prog, srcs)
@@ -222,6 +244,9 @@ def bind(ints, bools):
     for name, kind, slot in CFG.get('vars', []):
         if kind == 'out':            # name = leaf number
             outs[name] = ints[slot]
+            continue
+        if kind == 'out3':
+            outs[name] = pick(OUT3, ints[slot])
             continue
         if kind == 'lbool':          # leaf value: symbolic bool
             vals[name] = bools[slot]
@@ -269,8 +294,11 @@ def run_engine(bindings):
     b['rec'] = rec
     b['show'] = show
     b['L'] = make_L(outs, vals, LOG)
+    del HANDLER_CALLS[:]
     try:
         out = STATE['template'].render(**b)
+        if CFG.get('handler'):
+            out = out + '#handler:' + ','.join(HANDLER_CALLS)
         return ('ok', out, list(LOG))
     except Exception as exc:
         return ('exc', type(exc).__mro__[-3].__name__ if False else _base_name(exc), list(LOG))
@@ -302,6 +330,8 @@ def run_ref(bindings, **kw):
         text = ''
         for s in out:
             text = text + s
+        if CFG.get('handler'):
+            text = text + '#handler:' + ','.join(_base_name(e) for e in ref.handler_calls)
         return ('ok', text, log, ref.marks)
     except Exception as exc:
         return ('exc', _base_name(exc), log, ref.marks)
